@@ -558,6 +558,81 @@ func min(a, b int) int {
 	return b
 }
 
+// nearMiss returns a pointer into the target's document that almost designates an element of the wanted kind.
+func (g *worldGen) nearMiss(kind string, t *target) []string {
+	doc, _ := g.w.Docs[t.doc].(map[string]interface{})
+	sortedKeys := func(m map[string]interface{}) []string {
+		var ks []string
+		for k := range m {
+			ks = append(ks, k)
+		}
+		sort.Strings(ks)
+		return ks
+	}
+	if kind == "schema" {
+		node, ok := oracle.EvalPointer(g.w.Docs[t.doc], oracle.TokensToPointer(t.toks))
+		nm, isObj := node.(map[string]interface{})
+		if !ok || !isObj || nm["title"] == nil {
+			return nil // only through inline schemas, see above
+		}
+		var cands [][]string
+		for _, kw := range []string{"allOf", "anyOf", "oneOf", "items"} {
+			switch x := nm[kw].(type) {
+			case []interface{}:
+				cands = append(cands, []string{kw, fmt.Sprint(len(x))})
+			case map[string]interface{}:
+				if _, isRef := x["$ref"]; !isRef {
+					cands = append(cands, []string{kw, "0"})
+				}
+			}
+		}
+		for _, kw := range []string{"properties", "definitions", "patternProperties"} {
+			if _, has := nm[kw].(map[string]interface{}); has {
+				cands = append(cands, []string{kw, "absent-name"})
+			}
+		}
+		if len(cands) == 0 {
+			return nil
+		}
+		return append(append([]string{}, t.toks...), cands[g.r.Intn(len(cands))]...)
+	}
+	paths, _ := doc["paths"].(map[string]interface{})
+	var cands [][]string
+	for _, p := range sortedKeys(paths) {
+		pi, _ := paths[p].(map[string]interface{})
+		if _, isRef := pi["$ref"]; isRef || pi == nil {
+			continue
+		}
+		if kind == "pathItem" {
+			cands = append(cands, []string{"paths", p + "-absent"})
+			continue
+		}
+		if ps, ok := pi["parameters"].([]interface{}); ok && kind == "parameter" {
+			cands = append(cands, []string{"paths", p, "parameters", fmt.Sprint(len(ps))})
+		}
+		for _, opn := range sortedKeys(pi) {
+			op, _ := pi[opn].(map[string]interface{})
+			if op == nil || opn == "parameters" {
+				continue
+			}
+			if ps, ok := op["parameters"].([]interface{}); ok && kind == "parameter" {
+				cands = append(cands, []string{"paths", p, opn, "parameters", fmt.Sprint(len(ps))})
+			}
+			if rs, ok := op["responses"].(map[string]interface{}); ok && kind == "response" {
+				for _, code := range []string{"200", "404", "500", "default"} {
+					if _, has := rs[code]; !has {
+						cands = append(cands, []string{"paths", p, opn, "responses", code})
+					}
+				}
+			}
+		}
+	}
+	if len(cands) == 0 {
+		return nil
+	}
+	return cands[g.r.Intn(len(cands))]
+}
+
 func (g *worldGen) fillSlots() {
 	// deterministic order of targets
 	sort.SliceStable(g.targets, func(i, j int) bool { return g.targets[i].rank < g.targets[j].rank })
@@ -632,6 +707,14 @@ func (g *worldGen) fillSlots() {
 					}
 				}
 			}
+			if len(toks) == len(t.toks) && g.r.Intn(2) == 0 {
+				// a near miss: a pointer that stops one step short of existing (an undeclared status code, one past the end of a list,
+				// an absent name) - what a hand-written lookup with a forgotten presence check lets through
+				if nm := g.nearMiss(s.kind, t); nm != nil {
+					toks = nm
+					g.feature("fault.dangling-pointer(near-miss)")
+				}
+			}
 			if len(toks) == len(t.toks) {
 				toks = append(append([]string{}, toks...), "nowhere")
 			}
@@ -680,4 +763,79 @@ func (g *worldGen) fillSlots() {
 			g.feature("nested-target")
 		}
 	}
+}
+
+// Layouts move a generated world to other locations: the reference graph stays what it was, the documents are served from
+// other schemes, hosts and ports. "ports": everything under http://h.example:8080 except the cousin directory, which becomes
+// the namesake directory of the root's on another port of the same host; "hosts": the same with another host name;
+// "schemes": the same host and port under https.
+var Layouts = []string{"ports", "hosts", "schemes"}
+
+func layoutMap(layout, u string) string {
+	const cousin = "file:///w/b/"
+	other := map[string]string{"ports": "http://h.example:9090", "hosts": "http://g.example:8080", "schemes": "https://h.example:8080"}[layout]
+	switch {
+	case strings.HasPrefix(u, cousin):
+		return other + "/w/a/" + strings.TrimPrefix(u, cousin)
+	case strings.HasPrefix(u, "file://"):
+		return "http://h.example:8080" + strings.TrimPrefix(u, "file://")
+	case strings.HasPrefix(u, "http://h.example/"):
+		return other + strings.TrimPrefix(u, "http://h.example")
+	}
+	return u
+}
+
+// Relocate returns a copy of the world (without schema ids) whose documents live where the layout puts them. A reference keeps its
+// spelling when that still designates the moved target from the moved holder, and becomes an absolute URL otherwise.
+func Relocate(w *World, layout string) *World {
+	nw := &World{Docs: map[string]interface{}{}, Root: layoutMap(layout, w.Root), Features: map[string]int{"layout." + layout: 1}, Slots: w.Slots}
+	for k, v := range w.Features {
+		nw.Features[k] = v
+	}
+	for u, d := range w.Docs {
+		from, _ := url.Parse(u)
+		nu := layoutMap(layout, u)
+		nfrom, _ := url.Parse(nu)
+		var walk func(v interface{}) interface{}
+		walk = func(v interface{}) interface{} {
+			switch t := v.(type) {
+			case map[string]interface{}:
+				m := make(map[string]interface{}, len(t))
+				for k, x := range t {
+					if s, ok := x.(string); ok && k == "$ref" && !strings.HasPrefix(s, "#") {
+						if ru, err := url.Parse(s); err == nil {
+							abs := from.ResolveReference(ru)
+							frag := ""
+							if i := strings.Index(s, "#"); i >= 0 {
+								frag = s[i:]
+							}
+							abs.Fragment, abs.RawFragment = "", ""
+							nt := layoutMap(layout, abs.String())
+							still := nfrom.ResolveReference(ru)
+							still.Fragment, still.RawFragment = "", ""
+							if ru.IsAbs() || still.String() != nt {
+								if !ru.IsAbs() {
+									nw.Features["layout.relative-became-absolute"]++
+								}
+								s = nt + frag
+							}
+						}
+						m[k] = s
+						continue
+					}
+					m[k] = walk(x)
+				}
+				return m
+			case []interface{}:
+				a := make([]interface{}, len(t))
+				for i, x := range t {
+					a[i] = walk(x)
+				}
+				return a
+			}
+			return v
+		}
+		nw.Docs[nu] = walk(d)
+	}
+	return nw
 }
